@@ -69,7 +69,9 @@ func lazinessMonitor(prefix string) func(c *Ctx) []Violation {
 				}
 			}
 		}
-		if st.V.OK && !hasPlans(c) {
+		if st.V.OK {
+			// (also under fault plans: an Invoke that succeeded has every
+			// required member of its closure completed, retried or not)
 			must := m.MustRun(st.Op.Scope, leaves, model.DecoSet{}, li.doneBefore(st.LogFrom))
 			done := li.doneBefore(st.LogTo)
 			for inst := range must {
@@ -308,4 +310,61 @@ func provideAcceptMonitor(prefix string) func(c *Ctx) []Violation {
 		}
 		return []Violation{{Rule: prefix + "/valid-provide-rejected", Detail: fmt.Sprintf("%s => %s (%s) although it provides no key its scope already has and closes no cycle under any reading", st.Op, st.V.Class(), st.V.Msg)}}
 	}
+}
+
+// stabilityState renders what stabilityMonitor remembers of a history: the
+// deliveries to invoked functions per (scope, key) since the last accepted
+// registration. Part of the dedup key of scenarios that use the monitor.
+func stabilityState(r *h.Run) string {
+	last := map[string]string{}
+	log := r.RT.Log
+	for _, st := range r.Steps {
+		switch st.Op.Kind {
+		case h.OpProvide, h.OpDecorate, h.OpScope:
+			if st.V.OK {
+				last = map[string]string{}
+			}
+			continue
+		case h.OpInvoke:
+		default:
+			continue
+		}
+		if !st.V.OK || st.Op.Fn == nil || st.Inst == "" {
+			continue
+		}
+		leaves := st.Op.Fn.PLeaves()
+		for i := st.LogFrom; i < st.LogTo && i < len(log); i++ {
+			e := log[i]
+			if e.Kind != u.EvEnter || e.Fn != st.Inst {
+				continue
+			}
+			for _, a := range e.Args {
+				if a.Leaf >= len(leaves) {
+					continue
+				}
+				l := leaves[a.Leaf]
+				if l.Key.IsGroup() && l.Soft {
+					continue
+				}
+				var ss []string
+				for _, t := range a.Toks {
+					if t.IsZero() {
+						ss = append(ss, "zero")
+					} else {
+						// instance identity without the process-unique serial:
+						// which execution of which function produced it
+						ss = append(ss, t.String())
+					}
+				}
+				sort.Strings(ss)
+				last[fmt.Sprintf("s%d|%v", st.Op.Scope, l.Key)] = strings.Join(ss, ",")
+			}
+		}
+	}
+	var ks []string
+	for k, v := range last {
+		ks = append(ks, k+"="+v)
+	}
+	sort.Strings(ks)
+	return strings.Join(ks, ";")
 }
